@@ -2091,3 +2091,47 @@ M("c17-typed-nil-handle", "C17", "prometheus/reporter.go",
 		m = &cachedMetric{counter: counterVec.With(tags)}
 	}
 	return m""", expect="O2 allocator")
+
+M("c16-binary-fieldbegin-i32-id", "C16", TH + "binary_protocol.go",
+  "	e = p.WriteI16(id)\n	return e", "	e = p.WriteI32(int32(id))\n	return e", expect="O5 header-sequences")
+M("c16-binary-listbegin-order", "C16", TH + "binary_protocol.go",
+  """func (p *TBinaryProtocol) ReadListBegin() (elemType TType, size int, err error) {
+	b, e := p.ReadByte()
+	if e != nil {
+		err = NewTProtocolException(e)
+		return
+	}
+	elemType = TType(b)
+	size32, e := p.ReadI32()
+	if e != nil {
+		err = NewTProtocolException(e)
+		return
+	}""", """func (p *TBinaryProtocol) ReadListBegin() (elemType TType, size int, err error) {
+	size32, e := p.ReadI32()
+	if e != nil {
+		err = NewTProtocolException(e)
+		return
+	}
+	b, e := p.ReadByte()
+	if e != nil {
+		err = NewTProtocolException(e)
+		return
+	}
+	elemType = TType(b)""", expect="O5 header-sequences")
+M("c16-compact-message-no-seq", "C16", TH + "compact_protocol.go",
+  """	_, err = p.writeVarint32(seqid)
+	if err != nil {
+		return NewTProtocolException(err)
+	}
+	e := p.WriteString(name)""", """	e := p.WriteString(name)""", expect="O5 header-sequences")
+M("c16-compact-collection-threshold", "C16", TH + "compact_protocol.go",
+  "	if size <= 14 {", "	if size <= 15 {", expect="O6 compact-headers")
+M("c16-compact-field-delta-shift", "C16", TH + "compact_protocol.go",
+  "		err := p.writeByteDirect(byte((fieldId-p.lastFieldId)<<4) | typeToWrite)", "		err := p.writeByteDirect(byte((fieldId-p.lastFieldId)<<3) | typeToWrite)", expect="O6 compact-headers")
+M("c16-compact-structend-no-pop", "C16", TH + "compact_protocol.go",
+  """func (p *TCompactProtocol) WriteStructEnd() error {
+	p.lastFieldId = p.lastField[len(p.lastField)-1]
+	p.lastField = p.lastField[:len(p.lastField)-1]""", """func (p *TCompactProtocol) WriteStructEnd() error {
+	p.lastFieldId = p.lastField[len(p.lastField)-1]""", expect="O6 compact-headers")
+M("c16-compact-read-field-no-lastid", "C16", TH + "compact_protocol.go",
+  "	// push the new field onto the field stack so we can keep the deltas going.\n	p.lastFieldId = int(id)\n", "", expect="O6 compact-headers")
